@@ -944,6 +944,8 @@ func c06SliceAliasInLoop(c *Ctx) {
 	keywordSources(c, "R06m", map[string][]string{"MaxLength": {"MaxBytes"}})
 	r.Rule("R06n", "the flatten and discriminated-oneof encoders remove the wrapper key whenever the field is set (never conditionally on the child's content): the wire carries only the promoted keys the schema describes", 2)
 	wrapperKeyAlwaysRemoved(c, "R06n")
+	r.Rule("R06q", "a float32 rule value reaches the published const / enum / bound through its own shortest decimal text, never through a bare float64(…) widening (shares the concern of C19/R19e, R19l)", 1)
+	noBareFloatWidening(c, "R06q")
 	r.Rule("R06p", "the published enum list of an enum-typed field holds every value of the enum (string and NUMBER encodings)", 2)
 	c06EnumListComplete(c, "R06p")
 	r.Rule("R06o", "children promoted from a (sebuf.http.flatten) message field are not listed in required: the keys are absent whenever the flattened field is unset, which the rules and the generated code accept", 1)
